@@ -6,7 +6,7 @@ import json, os, shutil, subprocess, sys
 prop, var, needs, checks = sys.argv[1], sys.argv[2], sys.argv[3], sys.argv[4].split(',')
 demo_rel = sys.argv[5] if len(sys.argv) > 5 else 'emulator-2a-lib/tests/demo_mut.rs'
 src = f'/tmp/mut-{prop}/{var}'
-dst = f'/verif/seeded/{prop}-{var}'
+dst = f"/verif/seeded/{prop}-{os.environ.get('AS', var)}"
 os.makedirs(dst, exist_ok=True)
 for f in ['patch.diff', 'demo.rs', 'demo.sh', 'notes.md']:
     if os.path.exists(f'{src}/{f}'):
@@ -25,7 +25,7 @@ for line in out.splitlines():
 first = open(f'{src}/notes.md').read().strip().split('\n')
 meta = {
   'breaks_property': prop,
-  'variant': var,
+  'variant': os.environ.get('AS', var),
   'origin': 'independent sub-agent given only the property text and a scratch worktree (nothing from /verif)',
   'needs_to_manifest': needs,
   'confirmed_in_scratch_worktree': conf,
